@@ -133,6 +133,9 @@ def is_raw(B, mcls, lab, i):
 def check(case, ctx):
     spA = copy.deepcopy(case["spec"])
     m = spA["method"]
+    if any(c04.degenerate(c) for c in spA["constraints"]):
+        ctx.count("shifted_operand_cancels_symbolically")
+        return []
     N, M = m["N"], m["M"]
     dc = m["cls"] == "DC"
     rng = np.random.default_rng(case["rng"])
